@@ -398,6 +398,53 @@ pub const SET_SEP: u32 = 1;
 pub const SET_PREBUILT: u32 = 2;
 pub const SET_INVALID: u32 = 3;
 pub const SET_BASIC: u32 = 4;
+pub const SET_WRITE: u32 = 5;
+
+/// syntax flags that the writers read or that constrain what the parser accepts of the writers' output
+pub const WFLAGS: [u64; 16] = [RMS, NPMS, RES, NPES, NEN, REN, NEWF, RID, RFD, RED, RMD, NSP, CSS, NILZ, NFLZ, CSE];
+const WRADIX: [u8; 24] = [3, 5, 6, 7, 9, 11, 12, 13, 14, 15, 17, 18, 20, 21, 22, 23, 24, 25, 26, 28, 30, 33, 35, 36];
+
+/// radix flavour of write-format index i
+const fn wflavour(d: Desc, seed: u64, i: u64) -> Desc {
+    let r = rnd(seed, i, 98);
+    let mut d = d;
+    match i % 12 {
+        3 if HAVE_POW2 => {
+            d.radix = 16;
+            if r & 1 != 0 {
+                d.prefix = b'x';
+            }
+        },
+        4 if HAVE_POW2 => {
+            d.radix = 16;
+            d.base = 2;
+            d.exp_radix = 10;
+        },
+        5 if HAVE_POW2 => {
+            d.radix = [2u8, 4, 8, 32][(r % 4) as usize];
+        },
+        6 if HAVE_POW2 => {
+            let m = [(4u8, 2u8), (8, 2), (32, 2), (16, 4), (16, 2)];
+            let k = (r % 5) as usize;
+            d.radix = m[k].0;
+            d.base = m[k].1;
+            d.exp_radix = if r & 64 != 0 { 10 } else { m[k].1 };
+        },
+        7 | 8 if HAVE_RADIX => {
+            d.radix = WRADIX[((r >> 8) % 24) as usize];
+        },
+        9 if HAVE_RADIX => {
+            d.radix = WRADIX[((r >> 8) % 24) as usize];
+            d.exp_radix = 10;
+        },
+        10 if HAVE_POW2 => {
+            d.radix = [2u8, 8, 32, 4][(r % 4) as usize];
+            d.exp_radix = 10;
+        },
+        _ => {},
+    }
+    d
+}
 
 /// the format description for (set, seed, index)
 pub const fn desc_for(set: u32, seed: u64, i: usize) -> Desc {
@@ -512,6 +559,39 @@ pub const fn desc_for(set: u32, seed: u64, i: usize) -> Desc {
                 d.radix = m[i - 16].0;
                 d.base = m[i - 16].1;
                 d.exp_radix = 10;
+            }
+        },
+        SET_WRITE => {
+            // 0 standard; 1..=16 each write-relevant flag toggled alone (decimal); then radix flavours with
+            // seeded flag combinations; some with digit separators configured (the writers must ignore them)
+            let mut f = DEFAULT_FLAGS;
+            if i == 0 {
+            } else if i <= 16 {
+                f ^= WFLAGS[i - 1];
+            } else {
+                let mut k = 0;
+                while k < 16 {
+                    if rnd(seed, iu, k as u64) % 4 == 0 {
+                        f ^= WFLAGS[k];
+                    }
+                    k += 1;
+                }
+                if rnd(seed, iu, 40) % 4 == 0 {
+                    d.sep = b'_';
+                    let mut c = 0;
+                    while c < 3 {
+                        let combo = rnd(seed, iu, 41 + c as u64) % 8;
+                        f |= combo << (20 + c * 4);
+                        c += 1;
+                    }
+                    if (f >> 20) & 0xfff == 0 {
+                        f |= 1 << 20;
+                    }
+                }
+            }
+            d.flags = repair(f, rnd(seed, iu, 50));
+            if i > 16 {
+                d = wflavour(d, seed, iu);
             }
         },
         SET_INVALID => {
